@@ -29,6 +29,27 @@ static std::vector<std::string> adversarial_paths()
 	return p;
 }
 
+// 36 paths that crowd one neighbourhood of the shipped 2^13 index: 21 with home bucket B, 15 with home bucket B+10. Adding
+// 20 + 15 + 1 of them fills a run of more than 32 slots, so the last insertion has to displace an entry (hopscotch).
+static const std::vector<std::string> &crowd_paths()
+{
+	static std::vector<std::string> out;
+	if (!out.empty()) return out;
+	std::vector<std::string> a, b;
+	uint32_t B = bucket_of("crowd0", 13);
+	uint32_t B2 = (B + 10) & 8191;
+	for (int i = 0; i < 4000000 && (a.size() < 21 || b.size() < 15); i++) {
+		std::string k = "crowd" + std::to_string(i);
+		uint32_t h = bucket_of(k, 13);
+		if (h == B && a.size() < 21) a.push_back(k);
+		else if (h == B2 && b.size() < 15) b.push_back(k);
+	}
+	for (size_t i = 0; i < 20 && i < a.size(); i++) out.push_back(a[i]);
+	for (auto &x : b) out.push_back(x);
+	if (a.size() > 20) out.push_back(a[20]);
+	return out;
+}
+
 static rc::Gen<Op> c04_op()
 {
 	auto conn = rc::gen::weightedOneOf<int>({{6, rng(1, 3)}, {1, rng(1, 6)}});
@@ -51,19 +72,29 @@ static rc::Gen<Op> c04_op()
 
 static rc::Gen<Scenario> c04_gen()
 {
-	return rc::gen::apply([](std::vector<int> transports, std::vector<Op> ops) {
+	return rc::gen::apply([](std::vector<int> transports, std::vector<Op> ops, int crowd) {
 		Scenario sc;
 		sc.paths = adversarial_paths();
+		size_t crowd_base = sc.paths.size();
+		if (crowd == 0) for (auto &p : crowd_paths()) sc.paths.push_back(p);
 		{ Op o; o.kind = CONNECT; o.a = 0; sc.ops.push_back(o); }              // observer = conn 0
 		{ Op o; o.kind = FETCH; o.conn = 0; o.a = 1; o.b = 0; sc.ops.push_back(o); } // fetch-all
 		{ Op o; o.kind = CONNECT; o.a = 0; sc.ops.push_back(o); }
 		for (int t : transports) { Op o; o.kind = CONNECT; o.a = t; sc.ops.push_back(o); }
+		if (crowd == 0) {
+			// crowded-neighbourhood phase: one peer adds all of them, then the observer looks
+			for (size_t i = crowd_base; i < sc.paths.size(); i++) { Op o; o.kind = ADD; o.conn = 1; o.a = (int)i; o.b = (int)(i % 12); sc.ops.push_back(o); }
+			{ Op g; g.kind = GET; g.conn = 0; g.b = 0; sc.ops.push_back(g); }
+			// every crowded path must still be found under its own name: the owner changes each of them
+			for (size_t i = crowd_base; i < sc.paths.size(); i++) { Op o; o.kind = CHANGE; o.conn = 1; o.a = (int)i; o.b = (int)((i + 5) % 12); o.idm = (i % 3 == 0) ? ID_STR : ID_NUM; sc.ops.push_back(o); }
+			{ Op g; g.kind = GET; g.conn = 0; g.b = 0; sc.ops.push_back(g); }
+		}
 		for (auto &o : ops) {
 			sc.ops.push_back(o);
 			Op g; g.kind = GET; g.conn = 0; g.b = 0; sc.ops.push_back(g);    // the daemon's own view after every step
 		}
 		return sc;
-	}, rc::gen::container<std::vector<int>>(rng(0, 3)).as("transports"), rc::gen::container<std::vector<Op>>(c04_op()));
+	}, rc::gen::container<std::vector<int>>(rng(0, 3)).as("transports"), rc::gen::container<std::vector<Op>>(c04_op()), rng(0, 8));
 }
 
 int main(int argc, char **argv)
